@@ -113,7 +113,9 @@ func runC17(c *core.Ctx, o Options) {
 	}
 	// accessors that hand out entry storage: Group.Entries / AddEntry / Component.Set* operate on the group's own slices
 	checkEntryStorage(c, "S")
-	c.RuleMin = map[string]int{"P1": 10, "S": 15, "V": 43}
+	// T: entries and nested items created from templates keep their own tags: what AsTemplate builds is what is later serialized
+	checkTemplateRebuild(c, "T")
+	c.RuleMin = map[string]int{"P1": 10, "S": 15, "V": 43, "T": 2}
 	c.MinObl = 60
 }
 
